@@ -7,7 +7,7 @@ import json, os, shutil, subprocess, sys, tempfile, time
 
 ROOT = os.path.dirname(os.path.dirname(os.path.dirname(os.path.abspath(__file__))))
 PY = '/venv/bin/python'
-OUT = os.path.join(ROOT, 'seeded_regress_last.json')
+OUT = os.environ.get('SEEDREGRESS_OUT') or os.path.join(ROOT, 'seeded_regress_last.json')     # override: several runs side by side, merged afterwards
 
 
 def sh(cmd, cwd=None, env=None, timeout=3000):
